@@ -29,7 +29,8 @@ partial def parseErr (j : Json) : E Err :=
       pure (.chain (← es.mapM parseErr))
 
 def jwtSiteNames : List (String × JwtSite) :=
-  [("issuersRequired", .issuersRequired), ("noToken", .noToken), ("parse", .parse), ("subject", .subject),
+  [("issuersRequired", .issuersRequired), ("noToken", .noToken), ("parse", .parse), ("nonCanonical", .nonCanonical),
+   ("subject", .subject),
    ("metadataFailed", .metadataFailed), ("noJwksUri", .noJwksUri), ("claimsUnreadable", .claimsUnreadable),
    ("noKeyVerifies", .noKeyVerifies), ("keyNotFound", .keyNotFound), ("keyInvalid", .keyInvalid),
    ("jwksTimeout", .jwksTimeout), ("jwksUnreachable", .jwksUnreachable), ("template", .template),
